@@ -339,7 +339,11 @@ class MuxSocketTransportSink(ClientMessageSink):
       The ClientChannelSinkStack associated with the tag's response.
     """
     tup = self._tag_map.pop(tag, None)
-    self._tag_pool.release(tag)
+    if tup is not None:
+      # Only a tag that was actually leased goes back to the pool.  A frame from
+      # the peer for a tag that is not outstanding (reserved, unknown, or already
+      # answered) must not make that tag available to a request.
+      self._tag_pool.release(tag)
     return tup
 
   @abstractmethod
